@@ -38,6 +38,8 @@ type Opts struct {
 	Multipart bool
 	// MultipartFew divides that share by three (checks that cannot decide multipart exchanges: C14).
 	MultipartFew bool
+	// NoGadgets switches the fixed gadget service (gadgets.go) off.
+	NoGadgets bool
 }
 
 type g struct {
@@ -148,6 +150,9 @@ func Generate(r *vc.Rand, id string, o Opts) *spec.Spec {
 	svcUsed := map[string]bool{}
 	for i := 0; i < nsvc; i++ {
 		x.genService(i, svcUsed)
+	}
+	if o.Runtime && !o.NoGadgets {
+		x.genGadgetService() // gadgets.go
 	}
 	// a single-file server is a GET route: drop the ones whose full path is also served by a GET or HEAD endpoint of
 	// ANY service (two handlers for one verb and path make the design ambiguous; goa does not detect it)
